@@ -442,6 +442,40 @@ def failure_class(unit, f):
     return None
 
 
+def native(tier, seed, bdir, only=None):
+    """bounded native stand-in for the whole-tree clauses of C03 (filtration range as a function of the filtered complex,
+    make_filtration_non_decreasing, prune_above_filtration, cache invalidation on copy-assignment, insertion-history
+    independence): the Simplex_tree operations are not extractable, so NO contract covers them; this sweep over every
+    complex on 4 vertices is the labelled bounded substitute and is never counted as proved."""
+    import fnmatch
+    import json
+    uid = "native.simplex_tree"
+    if only and not fnmatch.fnmatch(uid, only):
+        return []
+    os.makedirs(bdir, exist_ok=True)
+    exe = os.path.join(bdir, "simplex_tree_sweep")
+    rc, o, e, s = sh(["g++", "-std=c++17", "-O2", "-w", "-I/repo/src/Simplex_tree/include", "-I/repo/src/common/include",
+                      os.path.join(VERIF, "native", "simplex_tree_sweep.cpp"), "-o", exe, "-ltbb"], 900)
+    if rc != 0:
+        return [{"unit": uid, "status": "error", "notes": (o + e)[-1500:], "cases": 0, "failures": []}]
+    samples = 40 if tier == "thorough" else 6
+    rc, o, e, secs = sh([exe, str(seed), str(samples)], 3600)
+    rec = {"unit": uid, "route": "B", "kind": "native (all 114 complexes on 4 vertices; values sampled from VERIF_SEED)", "status": "ok", "cases": 0, "failures": [],
+           "seconds": round(secs, 2), "bound": f"every simplicial complex on the vertices 0..3; {samples} value assignments from {{0,1,2,3}} per complex and option set; option sets default, full_featured, int-valued, int-valued with stable handles",
+           "desc": "filtration_simplex_range (each simplex once, non-decreasing, faces first, canonical, history- and option-independent), insert_simplex_and_subfaces (minimum rule), make_filtration_non_decreasing, prune_above_filtration at every threshold, copy-assignment over a filled cache"}
+    try:
+        js = json.loads(o.strip().split("\n")[-1])
+        rec["cases"] = rec["obligations"] = js["checked"]
+        for m in js["first"]:
+            m["id"] = f"case{len(rec['failures'])}"
+            m["input_class"] = None
+            rec["failures"].append(m)
+    except (ValueError, IndexError):
+        rec["status"] = "error"
+        rec["notes"] = f"native run failed rc={rc}: {(o + e)[-600:]}"
+    return [rec]
+
+
 def selftest():
     try:
         _bin("simplex_values")
@@ -458,7 +492,7 @@ TRUSTED = [
     "vp/prelude.h; extraction rules (vp/extract.py); CBMC 6.11.0 + MiniSat; IEEE-754 round-to-nearest",
 ]
 ASSUMPTIONS = [
-    "NOT decided by this family: make_filtration_non_decreasing and prune_above_filtration as whole-tree operations, the 'lists every simplex exactly once' clause, TBB schedule independence beyond uniqueness of sorting a strict total order",
+    "NOT decided by contracts: make_filtration_non_decreasing and prune_above_filtration as whole-tree operations, the 'lists every simplex exactly once' clause, insertion-history independence, cache invalidation - the Simplex_tree container is not extractable; they are covered only by the bounded native stand-in native.simplex_tree (all complexes on 4 vertices), never counted as proved; TBB schedule independence rests on uniqueness of sorting a strict total order",
     "the clause 'decoding returns the original vertex value' is only approximate by the library's own documentation and is not turned into a contract",
     "known finding F3: extend_filtration with a subnormal vertex-value spread or a spread above 1/MIN (recorded, not repaired)",
 ]
